@@ -198,6 +198,24 @@ def gen_search_spaces(quick):
         sel3.add_discrete_param('gain', [1.0, 2.0])
       return ss
     return build
+  # different parameters that share a name under different parent values (names are unique per subspace only)
+  def same_name(depth2):
+    def build():
+      ss = vz.SearchSpace()
+      root = ss.root
+      root.add_categorical_param('model', ['dnn', 'lin', 'tree'])
+      root.select('model', ['dnn']).add_float_param('lr', 1e-4, 1e-2, scale_type=vz.ScaleType.LOG)
+      root.select('model', ['lin']).add_float_param('lr', 0.01, 1.0)
+      root.select('model', ['tree']).add_int_param('lr', 0, 5)
+      if depth2:
+        s1 = root.select('model', ['dnn'])
+        s1.add_categorical_param('opt', ['adam', 'sgd'])
+        s1.select('opt', ['adam']).add_float_param('decay', 0.9, 0.999)
+        s1.select('opt', ['sgd']).add_int_param('decay', 0, 5, default_value=0)
+      return ss
+    return build
+  out.append(('tree-same-name-d1', same_name(False)))
+  out.append(('tree-same-name-d2', same_name(True)))
   for depth in (1, 2, 3):
     for pk in ('cat', 'int', 'disc'):
       for multi in (False, True):
